@@ -510,6 +510,9 @@ namespace Pistache
                 virtual StepId id() const                 = 0;
                 virtual State apply(StreamCursor& cursor) = 0;
 
+                // forget any progress made on the current message
+                virtual void reset() { }
+
                 static void raise(const char* msg, Code code = Code::Bad_Request);
 
             protected:
@@ -568,6 +571,12 @@ namespace Pistache
 
                 StepId id() const override { return Id; }
                 State apply(StreamCursor& cursor) override;
+
+                void reset() override
+                {
+                    chunk.reset();
+                    bytesRead = 0;
+                }
 
             private:
                 struct Chunk
